@@ -312,3 +312,11 @@ package expressions
 //@   check none
 //@   scope functional
 //@   loop 1 step imp(old(blk.expression[blk.charPos]) == '?' || old(blk.expression[blk.charPos]) == ';' || old(blk.expression[blk.charPos]) == '\n' || old(blk.expression[blk.charPos]) == '|', tree == nil)
+
+// `@name` as an argument: one parameter per array element, each verbatim - what is handed to
+// appendToParam is exactly the rune sequence of the element (no trimming, splitting or re-parsing).
+//@ func processStatementArrays [C08]
+//@   check none
+//@   at call appendToParam#1 assert arg0 == tree && len(arg1) == runecount(tǂ1[$idx]) && forall(j, 0, len(arg1), arg1[j] == runeat(tǂ1[$idx], j))
+//@   at call appendToParam#2 assert arg0 == tree && arg1 == tǂ2[$idx]
+//@   at call appendToParam#4 assert arg0 == tree && len(arg1) == runecount(unbox(sǂ1, string)) && forall(j, 0, len(arg1), arg1[j] == runeat(unbox(sǂ1, string), j))
